@@ -423,3 +423,86 @@ def cell_scalar_kind(t: Term, snap: Term) -> Tuple[Optional[str], str]:
             return name + "?", (f"cell H = {cells[k].tolist()} (box lengths {np.diag(cells[k]).tolist()}): the term evaluates to {vals[k]:.6f}, "
                                 f"{'the cell volume det(H)' if name == 'V' else 'the smallest box length'} is {ref[k]:.6f}")
     return None, ""
+
+
+# ---------------------------------------------------------------------------------------------------- boolean masks
+def bool_formula(t, atoms):
+    """mask term -> nested ('and'|'or'|'not', ...) | ('atom', k) over `atoms` (list of leaf terms, appended to); None if the term
+    is not a combination of masks.  `.astype(bool)`, np.logical_*, `&`, `|`, `*` (product of masks), `~`, `not` are the connectives."""
+    if t[0] == "call" and t[1] == ".astype" and len(t[2]) == 2 and t[2][1] in (("builtin", "bool"), ("attr", ("mod", "numpy"), "bool_"), ("const", "bool")):
+        return bool_formula(t[2][0], atoms)
+    if t[0] == "bin" and t[1] in ("&", "|", "*"):
+        a, b = bool_formula(t[2], atoms), bool_formula(t[3], atoms)
+        if a is None or b is None:
+            return None
+        return ("or" if t[1] == "|" else "and", a, b)
+    if t[0] == "un" and t[1] in ("~", "not"):
+        a = bool_formula(t[2], atoms)
+        return None if a is None else ("not", a)
+    if t[0] == "call" and t[1] in ("numpy.logical_and", "numpy.logical_or") and len(t[2]) == 2:
+        a, b = bool_formula(t[2][0], atoms), bool_formula(t[2][1], atoms)
+        if a is None or b is None:
+            return None
+        return ("and" if t[1].endswith("and") else "or", a, b)
+    if t[0] == "call" and t[1] == "numpy.logical_not" and len(t[2]) == 1:
+        a = bool_formula(t[2][0], atoms)
+        return None if a is None else ("not", a)
+    if t[0] == "cmp" and t[1] in ("<", ">", "<=", ">=") and len(t) == 4:
+        # orient as  lhs < rhs / lhs > rhs on a fixed operand order; <= and >= are the negations of > and <
+        op, x, y = t[1], t[2], t[3]
+        if repr(x) > repr(y):
+            x, y = y, x
+            op = {"<": ">", ">": "<", "<=": ">=", ">=": "<="}[op]
+        neg = op in ("<=", ">=")
+        base = {"<=": ">", ">=": "<"}.get(op, op)
+        leaf = ("cmp", base, x, y)
+        if leaf not in atoms:
+            atoms.append(leaf)
+        f = ("atom", atoms.index(leaf))
+        return ("not", f) if neg else f
+    if t[0] in ("const",):
+        return None
+    if t not in atoms:
+        atoms.append(t)
+    return ("atom", atoms.index(t))
+
+
+def _bool_eval(f, val):
+    if f[0] == "atom":
+        return val[f[1]]
+    if f[0] == "not":
+        return not _bool_eval(f[1], val)
+    a, b = _bool_eval(f[1], val), _bool_eval(f[2], val)
+    return (a and b) if f[0] == "and" else (a or b)
+
+
+def bool_equiv(t1, t2):
+    """(True|False|None, witness): truth-table comparison of two mask terms over their leaf masks.  Decided only when both are
+    combinations of the same leaves; `a < b` and `a > b` of the same operands exclude each other (both false = equality)."""
+    import itertools as _it
+    atoms = []
+    f1, f2 = bool_formula(t1, atoms), bool_formula(t2, atoms)
+    if f1 is None or f2 is None or not atoms or len(atoms) > 8:
+        return None, ""
+    a1, a2 = [], []
+    bool_formula(t1, a1)
+    bool_formula(t2, a2)
+    fam = lambda x: ("cmpfam",) + tuple(x[2:]) if x[0] == "cmp" else x      # noqa: E731
+    if {fam(x) for x in a1} != {fam(x) for x in a2}:
+        return None, "the masks are built from different leaves"
+    if f1[0] == "atom" and f2[0] == "atom":
+        return None, ""
+    excl = [(i, j) for i, x in enumerate(atoms) for j, y in enumerate(atoms) if i < j and x[0] == "cmp" and y[0] == "cmp" and x[2:] == y[2:] and {x[1], y[1]} == {"<", ">"}]
+    boundary_only = False
+    for val in _it.product((False, True), repeat=len(atoms)):
+        if any(val[i] and val[j] for i, j in excl):
+            continue
+        if _bool_eval(f1, val) != _bool_eval(f2, val):
+            if any(not val[i] and not val[j] for i, j in excl):
+                boundary_only = True         # differs only where the two compared quantities are equal: left to the comparator rules
+                continue
+            from ..vg import show as _show
+            return False, "masks differ for a particle with " + ", ".join(f"[{_show(a)[:50]}] = {v}" for a, v in zip(atoms, val))
+    if boundary_only:
+        return None, "masks agree except where the compared quantities are equal"
+    return True, "truth table"
